@@ -1153,7 +1153,6 @@ func dropPair(src []byte, tf *token.File, as *ast.AssignStmt, idx int, comment s
 	return strings.Join(l, ", ") + " := " + strings.Join(r, ", ") + " " + comment
 }
 
-
 // helperBinding: a name the helper substitution made up (x_h12).
 func helperBinding(name string) bool {
 	i := strings.LastIndex(name, "_h")
@@ -1167,7 +1166,6 @@ func helperBinding(name string) bool {
 	}
 	return true
 }
-
 
 // readOnlyTable: obj is a package-level variable of the repository that is initialised with a composite literal
 // and never assigned, address-taken or indexed on the left of an assignment in non-test code.
